@@ -47,6 +47,10 @@ func runC15(c *Ctx) {
 	// reach the writer)
 	checkWriteFailureLatched(c, "R11")
 	c.withOnly("R7", "R12", func() { runC02(c) })
+	// R13 (= C01.R20): a failed read is answered with the failure, not with short DATA that the client completes with a
+	// second request (a torn read); R14 (= C10.R22): a write the handler failed is not acknowledged
+	checkReadReplyTruthTable(c, "R13")
+	checkHandlersErrorIsTheOneReported(c, "R14")
 }
 
 // storeStepName: the instruction is a call on the backing object that the property treats as one atomic step.
